@@ -115,8 +115,8 @@ impl NetCtx {
 }
 // X.choose(&mut rand::thread_rng()): some element of a non-empty vector (assumed rand semantics)
 #[verifier::external_body]
-pub fn vf_choose<T: Copy>(v: Vec<T>) -> (r: Option<T>)
-    ensures r.is_some() == (v@.len() > 0), r.is_some() ==> v@.contains(r.unwrap()) { unimplemented!() }
+pub fn vf_choose<'a, T>(v: &'a [T]) -> (r: Option<&'a T>)
+    ensures r.is_some() == (v@.len() > 0), r.is_some() ==> v@.contains(*r.unwrap()) { unimplemented!() }
 // E.chunks(k): consecutive sub-slices of length k (the last one may be shorter); panics for k == 0
 #[verifier::external_body]
 pub fn vf_chunks<'a, T>(v: &'a [T], k: usize) -> (r: Vec<&'a [T]>)
